@@ -282,3 +282,83 @@ def emission_exact(led, rid, ctx):
               "later nogood that mentions the variable is dropped as trivially satisfied (blocking clauses "
               "disappear, solutions repeat)")
     led.floor(rid, "emission modes + order", n, 4)
+
+
+def scratch_reset(led, rid, ctx):
+    """SCRATCH-RESET: the vectors the semantic minimiser fills while compiling a nogood are empty
+    when the next call starts: either a clear of the field dominates every place that fills it
+    (directly or in a method of the minimiser that `minimise` calls first), or no return of
+    `minimise` is reachable from a filling site without passing a clear / take of that field.
+    Otherwise predicates of an earlier nogood are prepended to the next one, which then never
+    fires (for solution enumeration: the blocking clause is lost and a solution repeats)."""
+    lib = ctx.lib
+    f = lib.method("SemanticMinimiser", "minimise")
+    R = resolver(f)
+    cfg = f.cfg
+
+    def vec_field(g, Rg, c, i):
+        tys = c.term.get("arg_tys", [])
+        if i >= len(tys) or "std::vec::Vec<" not in tys[i] or not tys[i].lstrip().startswith("&mut"):
+            return None
+        e = Rg.operand(c.args[i])
+        fl = e.fields()
+        root = [x for x in e.walk() if x.k == "arg"]
+        if fl and root and all(x.a == 1 for x in root):
+            return fl[-1]
+        return None
+
+    GROW = ("push", "extend", "extend_from_slice", "insert", "append", "resize")
+    CLEAR = ("clear", "take", "truncate", "drain")
+
+    def summarise(g, depth=0):
+        """(fields g may fill, fields g clears on every path)"""
+        Rg = resolver(g)
+        fills, clears = set(), set()
+        for c in g.calls:
+            for i in range(len(c.args)):
+                fl = vec_field(g, Rg, c, i)
+                if fl is None:
+                    continue
+                if c.name in CLEAR:
+                    if all(g.cfg.dominates(c.bb, r) for r in g.cfg.returns):
+                        clears.add(fl)
+                else:
+                    fills.add(fl)          # pushes, or hands the vector out mutably
+            if depth < 2 and (c.self_ty or "").endswith("SemanticMinimiser") or "SemanticMinimiser" in (c.target_def or ""):
+                for h in lib.callees(c):
+                    if h is not g and "semantic_minimiser" in h.file:
+                        a, b = summarise(h, depth + 1)
+                        fills |= a
+                        if all(g.cfg.dominates(c.bb, r) for r in g.cfg.returns):
+                            clears |= b
+        return fills, clears
+
+    # sites in minimise
+    fill_sites, clear_sites = {}, {}
+    for c in f.calls:
+        for i in range(len(c.args)):
+            fl = vec_field(f, R, c, i)
+            if fl is None:
+                continue
+            (clear_sites if c.name in CLEAR else fill_sites).setdefault(fl, []).append(c)
+        if "SemanticMinimiser" in (c.target_def or "") or (c.self_ty or "").endswith("SemanticMinimiser"):
+            for h in lib.callees(c):
+                if h is not f and "semantic_minimiser" in h.file:
+                    a, b = summarise(h)
+                    for fl in a:
+                        fill_sites.setdefault(fl, []).append(c)
+                    for fl in b:
+                        clear_sites.setdefault(fl, []).append(c)
+    n = 0
+    for fl, sites in sorted(fill_sites.items()):
+        n += 1
+        cl = clear_sites.get(fl, [])
+        entry_clear = any(all(cfg.dominates(x.bb, s.bb) and x.bb != s.bb for s in sites) for x in cl)
+        exit_clear = all(not cfg.reaches(s.bb, cfg.returns, avoid=[x.bb for x in cl if x.bb != s.bb], strict=True)
+                         for s in sites) and bool(cl)
+        led.check(entry_clear or exit_clear, rid, "SemanticMinimiser.%s:reset-per-call" % fl, sites[0].span,
+                  "cleared before it is filled" if entry_clear else "cleared on every way out",
+                  "SemanticMinimiser::minimise fills `%s` but neither clears it before filling nor on every way "
+                  "out (an early return leaves what was collected): the next nogood that is minimised starts with "
+                  "the predicates of this one" % fl)
+    led.floor(rid, "scratch vectors of the semantic minimiser", n, 1)
